@@ -26,7 +26,38 @@ def _inputs(case):
 def model_query(case, impl_res):
     t, sc, st = _inputs(case)
     return dict(p=PID, op='merge_spikes', times=t, clusters=sc, templates=st,
-                template_counts=[len(p['templates']) for p in case['probes']])
+                template_counts=[len(p['templates']) for p in case['probes']], mds=_mds(case)[0])
+
+
+def _parse_cell(v):
+    try:
+        return int(v)
+    except ValueError:
+        try:
+            return float(v)
+        except ValueError:
+            return v
+
+
+def _mds(case):
+    """per TSV file: per probe None or rows [cluster id, token]; and the value each token stands for"""
+    mds, vals = [], {}
+    for f, fn in enumerate(M.TSVS):
+        md = []
+        for k, p in enumerate(case['probes']):
+            txt = p.get('text_files', {}).get(fn)
+            if txt is None:
+                md.append(None)
+                continue
+            rows = []
+            for r, line in enumerate(txt.strip().split('\n')[1:]):
+                cid, v = line.split('\t')
+                tok = (f * 100 + k) * 1000 + r
+                vals[tok] = _parse_cell(v)
+                rows.append([int(cid), tok])
+            md.append(rows)
+        mds.append(md)
+    return mds, vals
 
 
 def oracle(case):
@@ -60,6 +91,8 @@ def oracle(case):
                         v = float(v)
                     except ValueError:
                         pass
+                if int(cid) > max(p['spike_clusters']):
+                    continue        # no spike, no id in the merged numbering (it would fall on the next probe's ids)
                 data[str(int(cid) + coff[k])] = v
         if data:
             tsv[fn] = data
@@ -94,6 +127,14 @@ def judge(case, impl_res, ans):
     if ok['cluster_probes']['vals'] != exp['cluster_probes']:
         return 'SPEC: cluster_probes does not point back to the originating probe'
     got_tsv = {fn: v['data'] for fn, v in ok['tsv'].items()}
+    # the Lean model of write_cluster_data (theorem metadata_points_back) against the python oracle
+    _, vals = _mds(case)
+    lean_tsv = {}
+    for fn, rows in zip(M.TSVS, m['metadata']):
+        if rows:
+            lean_tsv[fn] = {str(K): vals[tok] for K, tok in rows}
+    if lean_tsv != exp['tsv']:
+        return 'MACHINERY: Lean mergeClusterData differs from the python oracle: %s vs %s' % (lean_tsv, exp['tsv'])
     if got_tsv != exp['tsv']:
         return 'SPEC: renumbered per-cluster metadata differs: %s vs %s' % (got_tsv, exp['tsv'])
     mm = ok['model']
